@@ -22,8 +22,9 @@
     load_never_panics              the decoders' half of `DecodersTotal` is now a theorem (no filter model reaches
                                    a panic outcome, inflate's fuel included); what remains is only the size
                                    clause for absurdly large decoder inputs (`DecodedSizes`).
-  Still `_partial` (Props/C03.lean): cross-reference stream layouts, object streams, hybrid files; streams with a
-  (forward-)referenced /Length are covered by the two-pass stage theorem below when available.
+  The other layouts (follow-up C03c): cross-reference streams Props/C03E2EXref.lean, object streams and hybrid files
+  Props/C03E2EObjStm.lean, all object kinds at once incl. forward-referenced Length Props/C03E2EAll.lean, the generator link
+  Props/C03Render.lean.
 -/
 import Parsley.Lemmas.LoaderE2E
 import Parsley.Lemmas.LoaderDecoders
